@@ -640,11 +640,13 @@ pub fn assemble_replay(texts: &[String], debug: &[bool]) -> Option<Vec<ObjectFil
 }
 
 pub fn run(ctx: &Ctx, replay: Option<&str>) {
+    // a replay input that carries a set re-runs just that set; otherwise (the check passes the
+    // operation name only) the whole area is re-run from the recorded seed
     if let Some(rp) = replay {
         if let Some((texts, debug)) = parse_set(rp) {
             if let Some(objs) = assemble_replay(&texts, &debug) { run_set_c20(ctx, &texts, &debug, objs); }
+            return;
         }
-        return;
     }
     let mut r = Rng::new(ctx.seed).fork(20);
     let plan: [(usize, u64); 3] = [(2, ctx.n(260, 2500)), (3, ctx.n(150, 1500)), (4, ctx.n(45, 450))];
